@@ -116,6 +116,10 @@ func collection(c *mon.Case, maxE int) {
 	if r.Intn(5) == 0 {
 		for k := 0; k < 1+r.Intn(2); k++ {
 			e := gen.MakeObj(r, gen.Near(r, ctr, scale), scale*(0.2+r.Float64()), 40).Shape
+			if r.Intn(3) == 0 { // a shape without edges but with an interior: recorded in every cell, on all six faces
+				e = s2.FullPolygon()
+				c.Count("collection.full_shape_removed", 1)
+			}
 			idx.Add(e)
 			extras = append(extras, e)
 			off++
